@@ -47,13 +47,13 @@ PROPS = {
         "not_decided": "conversion 'exactly as if supplied' for nested defaults beyond G6 + purity.",
     },
     "C06": {
-        "rules": ["T1", "T2", "T6", "K1", "K2", "K3", "K4", "K7", "D3", "T13", "K9"],
+        "rules": ["T1", "T2", "T6", "K1", "K2", "K3", "K4", "K7", "D3", "T13", "K9", "K10"],
         "decides": "structural preconditions of the round trip: parser, serializer, repr and class generator "
                    "enumerate the same keywords; nothing read is dropped; falsy values survive; names keep their kind.",
         "not_decided": "the identity itself.",
     },
     "C07": {
-        "rules": ["K1", "K3", "K7", "K5", "K8", "K9", "G10"],
+        "rules": ["K1", "K3", "K7", "K5", "K8", "K9", "G10", "K10"],
         "decides": "a default extracted from the schema is re-attached on every path, never filtered by "
                    "truthiness; only the auto-title annotation is stripped from literals; the description reaches "
                    "the docstring only through an escaping emitter.",
@@ -100,7 +100,7 @@ PROPS = {
         "not_decided": "that dedupe's numeric suffixes never collide with formatted titles.",
     },
     "C13": {
-        "rules": ["P4", "P1", "T2"],
+        "rules": ["P4", "P1", "T2", "P7"],
         "decides": "nothing derived from configuration is stored (getters build fresh helpers; no caching "
                    "decorators; no writes): every verdict is computed from the attributes as they are at call time; "
                    "each keyword lives in a plain attribute of its own name.",
@@ -149,10 +149,11 @@ PROPS = {
         "not_decided": "soundness for arbitrary nestings as a whole.",
     },
     "C20": {
-        "rules": ["G9", "T3", "T8", "X5", "G11"],
+        "rules": ["G9", "T3", "T8", "X5", "X7", "G11", "K10"],
         "decides": "the unsupported-keyword test dominates all interpretation of a schema dict; every interpreted "
                    "position is reached only through parse_element; the table covers the documented keywords; "
-                   "RecursionError under parse_element is converted and cannot be swallowed; class cycles refused.",
+                   "RecursionError under parse_element is converted and cannot be swallowed; no handler in the parse graph "
+                   "swallows the not-implemented error; class cycles refused.",
         "not_decided": "that materialize turns every recursive document into a cyclic dict (third-party contract).",
     },
 }
